@@ -32,22 +32,29 @@ const (
 	MkRewards                        // staking.delegationRewards (declared read-only) for a delegation that exists
 	MkTokenCB                        // crosschain.crossChain of a registered ERC-20 whose transferFrom calls staking.approveShares
 	MkInnerApprove                   // the approveShares made by that token (never placed in a tree on its own)
+	MkExecClaim                      // crosschain.executeClaim of a pending, executable claim (SendToFx of FX)
+	MkExecPanic                      // crosschain.executeClaim of a pending result claim whose bridge call is gone: the keeper deletes the claim, then PANICS
 )
 
 func (k MarkerKind) String() string {
-	return [...]string{"approve", "delegate", "xchain", "transferFail", "approveBad", "delegateFail", "bridgeCall", "cancel", "increaseFee", "rewards", "tokenCallback", "innerApprove"}[k]
+	return [...]string{"approve", "delegate", "xchain", "transferFail", "approveBad", "delegateFail", "bridgeCall", "cancel", "increaseFee", "rewards", "tokenCallback", "innerApprove", "executeClaim", "executeClaimPanic"}[k]
 }
 
 func (k MarkerKind) designedOK() bool {
 	switch k {
-	case MkTransferFail, MkApproveBad, MkDelegateFail:
+	case MkTransferFail, MkApproveBad, MkDelegateFail, MkExecPanic:
 		return false
 	}
 	return true
 }
 
 // failsInsideAction: the native action starts, writes, and then returns an error
-func (k MarkerKind) failsInsideAction() bool { return k == MkTransferFail || k == MkDelegateFail }
+func (k MarkerKind) failsInsideAction() bool {
+	return k == MkTransferFail || k == MkDelegateFail || k == MkExecPanic
+}
+
+// panics: the keeper call does not return an error, it panics (after having written)
+func (k MarkerKind) panics() bool { return k == MkExecPanic }
 
 func (k MarkerKind) hasValue() bool { return k == MkXChain || k == MkBridgeCall || k == MkIncreaseFee }
 
@@ -61,6 +68,7 @@ type Marker struct {
 	Value  *big.Int `json:"-"`
 	Pool   int      `json:"pool"` // cancel / increaseFee: index of the pre-made pool entry
 	Inner  *Marker  `json:"inner"` // tokenCallback: the approveShares its token makes
+	Claim  uint64   `json:"claim"` // executeClaim kinds: event nonce of the pending claim
 	Owner  common.Address // approve kinds: the account whose allowance is written (zero = the frame contract Ctx)
 }
 
@@ -218,8 +226,10 @@ const (
 )
 
 func coqEff(id int, ok, partial bool) string {
-	return fmt.Sprintf("(mkeff %d %s %s)", id, lib.Bool(ok), lib.Bool(partial))
+	return fmt.Sprintf("(mkeff %d %s %s false)", id, lib.Bool(ok), lib.Bool(partial))
 }
+
+func coqEffPanic(id int) string { return fmt.Sprintf("(mkeff %d false true true)", id) }
 
 // coqPCallOK: what a successful call of marker m does, as a frame of the model.
 func coqPCallBody(m *Marker, executed bool) []string {
@@ -256,6 +266,8 @@ func coqPCallBody(m *Marker, executed bool) []string {
 		}
 		body = append(body, fmt.Sprintf("(Action %s %s)",
 			coqList([]string{"(NStep " + coqEff(m.ID, true, false) + ")", fmt.Sprintf("(Log %d)", logBase+m.ID)}), evs))
+	case m.Kind.panics():
+		body = append(body, fmt.Sprintf("(Action %s [])", coqList([]string{"(NStep " + coqEffPanic(m.ID) + ")"})))
 	case m.Kind.failsInsideAction():
 		body = append(body, fmt.Sprintf("(Action %s [])", coqList([]string{"(NStep " + coqEff(m.ID, false, true) + ")"})))
 	}
@@ -351,7 +363,8 @@ func tracedFrameCoq(f *TFrame, byInput map[string]*Marker, addrIdx map[common.Ad
 		}
 		// the precompile ran its action iff it was entered through CALL with enough gas; on success the
 		// marker's action completed; on failure either nothing ran or the action failed inside
-		executed := f.Err == "" || m.Kind.failsInsideAction()
+		// "out of gas" is RequiredGas not being covered: Run never started
+		executed := f.Err == "" || (m.Kind.failsInsideAction() && f.Err != vm.ErrOutOfGas.Error())
 		if f.Err == "" && !m.Kind.designedOK() {
 			return "(Frame nnil Fail true)", false
 		}
